@@ -682,6 +682,66 @@ example : restores guarded2 ["A", "B"] = true := by decide
 example : restores unguarded ["A"] = false := by decide
 example : restores guarded [] = false := by decide
 
+/-! ## the idioms added in the round-5 extension are read into the existing constructors; these lemmas state
+what the chosen IR terms do, for all states (they are the specification the translator relies on) -/
+
+/-- `x = os.environ.pop(v)` is read as `load x v; del v` (`MutableMapping.pop`: `value = self[v]`, then `del self[v]`):
+when `v` is set, `x` gets its value and `v` is removed -/
+theorem pop_idiom_set (o : Oracle) (x : Loc) (v : Var) (s : St) (t : String) (h : s.env v = some t) :
+    run o (.seq (.load x v) (.del v)) s =
+      ({ s with sto := s.sto.set x (.str t), env := s.env.set v none }, .ok) := by
+  simp [run, h]
+
+/-- ... and when `v` is unset the lookup raises (KeyError) and nothing at all has changed -/
+theorem pop_idiom_unset (o : Oracle) (x : Loc) (v : Var) (s : St) (h : s.env v = none) :
+    run o (.seq (.load x v) (.del v)) s = (s, .raised) := by
+  simp [run, h]
+
+/-- `x = os.environ.pop(v, None)` is read as `save x v; pop v`: never raises, `x` is the old value or None,
+`v` is unset afterwards -/
+theorem pop_default_idiom (o : Oracle) (x : Loc) (v : Var) (s : St) :
+    run o (.seq (.save x v) (.pop v)) s =
+      ({ s with sto := s.sto.set x (Val.ofOpt (s.env v)), env := s.env.set v none }, .ok) := by
+  simp [run]
+
+/-- `os.environ.setdefault(v, x)` is read as `ifSet v skip (setFrom v x)`: a variable that is set is left alone -/
+theorem setdefault_idiom_set (o : Oracle) (x : Loc) (v : Var) (s : St) (h : (s.env v).isSome = true) :
+    run o (.ifSet v .skip (.setFrom v x)) s = (s, .ok) := by
+  simp [run, h]
+
+/-- ... and a variable that is unset gets the (string) value of `x` -/
+theorem setdefault_idiom_unset (o : Oracle) (x : Loc) (v : Var) (s : St) (t : String)
+    (h : s.env v = none) (hx : s.sto x = .str t) :
+    run o (.ifSet v .skip (.setFrom v x)) s = ({ s with env := s.env.set v (some t) }, .ok) := by
+  simp [run, h, hx]
+
+/-- `calib = os.environ.pop('A')` under `except KeyError: raise ...`, the work, `finally: os.environ['A'] = calib` -/
+def guardedPop : Stmt :=
+  .seq (.tryExcept 0 (.seq (.load "x" "A") (.del "A")) (.seq (.fault 9) .raise))
+  (.tryFinally (.seq (.fault 1) (.seq (.need "B") (.fault 2))) (.setFrom "A" "x"))
+
+/-- the same without the `finally` -/
+def unguardedPop : Stmt :=
+  .seq (.tryExcept 0 (.seq (.load "x" "A") (.del "A")) (.seq (.fault 9) .raise))
+  (.seq (.fault 1) (.setFrom "A" "x"))
+
+/-- snapshot `{n: os.environ.get(n) for n in ('A', 'B')}`, `setdefault` / `update`, restore loop over `.items()` -/
+def guardedSnapshot : Stmt :=
+  .seq (.save "s1" "A") (.seq (.save "s2" "B")
+  (.tryFinally (.seq (.fault 1) (.seq (.ifSet "A" .skip (.setExpr "A" 2)) (.seq (.setExpr "B" 3) (.fault 4))))
+    (.seq (.ifNone "s1" (.pop "A") (.setFrom "A" "s1")) (.ifNone "s2" (.pop "B") (.setFrom "B" "s2")))))
+
+/-- the restore loop forgets to remove a variable that was unset -/
+def leakySnapshot : Stmt :=
+  .seq (.save "s1" "A") (.seq (.save "s2" "B")
+  (.tryFinally (.seq (.fault 1) (.seq (.ifSet "A" .skip (.setExpr "A" 2)) (.seq (.setExpr "B" 3) (.fault 4))))
+    (.seq (.ifNone "s1" .skip (.setFrom "A" "s1")) (.ifNone "s2" .skip (.setFrom "B" "s2")))))
+
+example : restores guardedPop ["A"] = true := by decide
+example : restores unguardedPop ["A"] = false := by decide
+example : restores guardedSnapshot ["A", "B"] = true := by decide
+example : restores leakySnapshot ["A", "B"] = false := by decide
+
 def envA : Env := fun v => if v = "A" then some "/calib" else none
 def failAt1 : Oracle := ⟨fun _ i => i == 1, fun _ _ => 0, fun _ _ => .other⟩
 
@@ -689,5 +749,7 @@ example : (run failAt1 unguarded ⟨envA, fun _ => .other, 0⟩).1.env "A" = non
 example : (run failAt1 unguarded ⟨envA, fun _ => .other, 0⟩).2 = .raised := by decide
 example : (run failAt1 guarded ⟨envA, fun _ => .other, 0⟩).1.env "A" = some "/calib" := by decide
 example : (run failAt1 guarded ⟨envA, fun _ => .other, 0⟩).2 = .raised := by decide
+example : (run failAt1 unguardedPop ⟨envA, fun _ => .other, 0⟩).1.env "A" = none := by decide
+example : (run failAt1 guardedPop ⟨envA, fun _ => .other, 0⟩).1.env "A" = some "/calib" := by decide
 
 end PydlVerif.C20
